@@ -50,19 +50,9 @@ static char *mk_string(int *pn)
   __CPROVER_assume(s != 0);
   for (int i = 0; i < n; i++) {
     char c;
-#ifdef GV_EXCL_HIGH_BYTES        /* exclusion predicate of the finding "ctype called with negative char" */
-    __CPROVER_assume(c >= -1);
-#endif
     s[i] = c;
     w_c[i] = c;
   }
-#ifdef GV_EXCL_NO_DIGIT          /* exclusion predicate of the finding "IsInteger accepts a bare sign" */
-  {
-    bool has_digit = false;
-    for (int i = 0; i < n; i++) if (sp_digit(s[i])) has_digit = true;
-    __CPROVER_assume(has_digit);
-  }
-#endif
   w_n = n;
   *pn = n;
   return s;
@@ -155,7 +145,7 @@ void h_isinteger()
 }
 
 // Classifier domain (ISO C 7.4p1) for all four functions on arbitrary bytes: the obligations are the
-// assertions inside the <cctype> stub; compiled WITHOUT -DGV_CTYPE_GLIBC.
+// assertions inside the <cctype> stub (ISO domain -1..255; no check of this unit defines GV_CTYPE_GLIBC any more).
 void h_ctype()
 {
   int n;
